@@ -389,6 +389,8 @@ type apiScen struct {
 	// Reopen: the store is closed and opened again after the initial commits, so the programs run on a recovered
 	// store (timestamps continued from the files, watermarks initialised by recovery, data in sstables); implies Eager
 	Reopen bool
+	// Keys: what the final read-only transaction reads (default: the two standard keys)
+	Keys []string
 }
 
 type apiReopenImage struct {
@@ -469,27 +471,30 @@ func apiScenario(sc apiScen, obs *txnObs) vsched.Scenario {
 					oo := obsOp{Op: o.Op, K: o.K}
 					switch o.Op {
 					case "G":
-						v, ok := l.tx.Get(o.K)
-						oo.V, oo.Found = string(v), ok
+						v, ok := l.tx.Get(xKey(o.K))
+						oo.V, oo.Found = sVal(o.K, v), ok
+						if !ok {
+							oo.V = ""
+						}
 					case "S":
 						nval++
 						oo.V = fmt.Sprintf("v%d", nval)
 						if nval%3 == 0 {
 							oo.V = "" // an empty value is a value
 						}
-						if err := l.tx.Set(o.K, []byte(oo.V)); err != nil {
+						if err := l.tx.Set(xKey(o.K), xVal(o.K, oo.V)); err != nil {
 							oo.Err = err.Error()
 						}
 					case "L":
 						oo.Op = "S"
 						oo.V = "<70000 bytes>"
-						if err := l.tx.Set(o.K, oversizeValue); err != nil {
+						if err := l.tx.Set(xKey(o.K), oversizeValue); err != nil {
 							oo.Err = err.Error()
 						} else {
 							oo.V = string(oversizeValue)
 						}
 					case "D":
-						if err := l.tx.Delete(o.K); err != nil {
+						if err := l.tx.Delete(xKey(o.K)); err != nil {
 							oo.Err = err.Error()
 						}
 					}
@@ -511,6 +516,12 @@ func apiScenario(sc apiScen, obs *txnObs) vsched.Scenario {
 				}
 			}
 			fin := ro("rx", "ry")
+			if len(sc.Keys) > 0 {
+				fin.Ops = nil
+				for _, k := range sc.Keys {
+					fin.Ops = append(fin.Ops, txOp{Op: "G", K: k})
+				}
+			}
 			runTxn(db, h, "final", fin, nil)
 			obs.closeOK = true
 		}
@@ -584,7 +595,7 @@ func apiPrograms(keys []string, maxOps int, withDiscard bool) []txProg {
 }
 
 // exploreAPI runs every interleaving of the given program tuple.
-func exploreAPI(c *Ctx, cfg dbCfg, init []txProg, progs []txProg, eager, settled, reopen bool, oracles ...txnOracle) {
+func exploreAPI(c *Ctx, cfg dbCfg, init []txProg, progs []txProg, keys []string, eager, settled, reopen bool, oracles ...txnOracle) {
 	lens := make([]int, len(progs))
 	for i, p := range progs {
 		lens[i] = len(p.Ops) + 2
@@ -594,7 +605,7 @@ func exploreAPI(c *Ctx, cfg dbCfg, init []txProg, progs []txProg, eager, settled
 			return
 		}
 		var obs txnObs
-		sc := apiScen{Cfg: cfg, Init: init, Progs: progs, Order: append([]int(nil), order...), Eager: eager, Settled: settled, Reopen: reopen}
+		sc := apiScen{Cfg: cfg, Init: init, Progs: progs, Order: append([]int(nil), order...), Eager: eager, Settled: settled, Reopen: reopen, Keys: keys}
 		inner := apiScenario(sc, &obs)
 		main, mon, check := inner()
 		res := vsched.Run(vsched.Default{}, vsched.RunOpts{MaxSteps: 200000, Monitor: mon}, main)
@@ -627,7 +638,7 @@ func exploreAPI(c *Ctx, cfg dbCfg, init []txProg, progs []txProg, eager, settled
 				sig, detail = oe.Sig, oe.Detail
 			}
 			c.Violation(sig, fmt.Sprintf("programs %v, API order %v, config %s, eager=%v settled=%v reopened=%v\n%s", progs, order, cfg, eager, settled, reopen, detail), nil,
-				map[string]any{"cfg": cfg, "init": init, "progs": progs, "order": order, "eager": eager, "settled": settled, "reopen": reopen})
+				map[string]any{"cfg": cfg, "init": init, "progs": progs, "order": order, "eager": eager, "settled": settled, "reopen": reopen, "keys": keys})
 		}
 	})
 }
@@ -659,10 +670,11 @@ func replayAPI(c *Ctx, oracles ...txnOracle) {
 		Eager   bool     `json:"eager"`
 		Settled bool     `json:"settled"`
 		Reopen  bool     `json:"reopen"`
+		Keys    []string `json:"keys"`
 	}
 	jsonUnmarshal(c.Replay.Case, &rc)
 	var obs txnObs
-	main, mon, check := apiScenario(apiScen{Cfg: rc.Cfg, Init: rc.Init, Progs: rc.Progs, Order: rc.Order, Eager: rc.Eager, Settled: rc.Settled, Reopen: rc.Reopen}, &obs)()
+	main, mon, check := apiScenario(apiScen{Cfg: rc.Cfg, Init: rc.Init, Progs: rc.Progs, Order: rc.Order, Eager: rc.Eager, Settled: rc.Settled, Reopen: rc.Reopen, Keys: rc.Keys}, &obs)()
 	res := vsched.Run(vsched.Default{}, vsched.RunOpts{MaxSteps: 200000, Monitor: mon, KeepLog: false}, main)
 	err := check(res)
 	for _, or := range oracles {
